@@ -1,0 +1,8 @@
+//go:build !verif
+// +build !verif
+
+package rpc
+
+// verifPoint marks a lock-free window for the verification harness (/verif).
+// Without the build tag verif it does nothing.
+func verifPoint(string) {}
